@@ -1,10 +1,10 @@
 package rules
 
 import (
-	"reflect"
 	"go/ast"
 	"go/constant"
 	"go/types"
+	"reflect"
 	"strings"
 
 	"golang.org/x/tools/go/packages"
